@@ -22,7 +22,9 @@ impl ReplayProtection {
     }
 
     pub fn already_received(&self, sequence: u64) -> bool {
-        if sequence + NETCODE_REPLAY_BUFFER_SIZE as u64 <= self.most_recent_sequence {
+        if self.most_recent_sequence >= NETCODE_REPLAY_BUFFER_SIZE as u64
+            && sequence <= self.most_recent_sequence - NETCODE_REPLAY_BUFFER_SIZE as u64
+        {
             return true;
         }
 
